@@ -118,3 +118,29 @@ func VerifDecodeSnapshot(b []byte) ([]VerifSegInfo, int64, error) {
 	}
 	return snap.VerifSegInfos(), n, nil
 }
+
+// VerifRootNoLock returns epoch and file-backed segment ids of the current
+// root without taking rootLock (only for use under the cooperative scheduler,
+// where exactly one thread runs at a time).
+func (s *Writer) VerifRootNoLock() (epoch uint64, fileSegs []uint64) {
+	if s.root == nil {
+		return 0, nil
+	}
+	for _, seg := range s.root.segment {
+		if seg.segment != nil && seg.segment.Persisted() {
+			fileSegs = append(fileSegs, seg.id)
+		}
+	}
+	return s.root.epoch, fileSegs
+}
+
+// VerifFileSegmentIDs returns the ids of the file-backed segments of a snapshot.
+func (i *Snapshot) VerifFileSegmentIDs() []uint64 {
+	var rv []uint64
+	for _, s := range i.segment {
+		if s.segment != nil && s.segment.Persisted() {
+			rv = append(rv, s.id)
+		}
+	}
+	return rv
+}
